@@ -1045,8 +1045,8 @@ impl<K: AsRef<Key>> ServerSequence<K> {
                 &variables,
             )
         };
-        self.context.apply_signature(mac.as_ref());
-        let mac = self.key().signature_slice(&mac);
+        let mac = self.context.key().signature_slice(&mac);
+        self.context.apply_signature(mac);
         self.key().complete_message(message, &variables, mac)
     }
 
